@@ -13,7 +13,7 @@ CONSTANTS
   DirOpts <- NoDirs
   ArgOpts <- ArgOptsSub
   VarTypes <- VarTypesStd
-  VarVals <- VarValsStd
+  VarVals <- VarValsSmall
   MaxOverlay = 0
   TRSets <- NoTR
   MaxFaults = 1
